@@ -521,6 +521,16 @@ impl super::MainState {
                 )
                 .await?;
             }
+        } else if end {
+            // secret channel: same answer as for channel that doesn't exist.
+            self.feed_msg(
+                &mut conn_state.stream,
+                RplEndOfNames366 {
+                    client,
+                    channel: channel_name,
+                },
+            )
+            .await?;
         }
         Ok(())
     }
